@@ -18,3 +18,4 @@ import RenetVerif.Lemmas.SrcEquiv.RecvRel
 import RenetVerif.Lemmas.SrcEquiv.NcPacket
 import RenetVerif.Lemmas.SrcEquiv.NcAddr
 import RenetVerif.Lemmas.SrcEquiv.NcConnToken
+import RenetVerif.Lemmas.SrcEquiv.Conn
